@@ -336,7 +336,9 @@ def scenarios(tier):
 
 def bound_for(scn, tier):
     if scn.name == "two-connections":
-        return 1 if tier == "quick" else 2
+        # d = 2 costs ~400 000 executions per two-connection scenario: one of them in the thorough tier
+        deep = scn.params.get("connections", 2) == 1
+        return 2 if (tier == "thorough" and deep) else 1
     k = scn.params["k"]
     if tier == "quick":
         return 1
